@@ -1079,8 +1079,58 @@ func ruleS3f(c *Ctx) {
 			}
 			return
 		}
-		if fl, ok := v.(*ssa.Field); ok { // a struct result: the field of each returned struct literal is not modelled
-			_ = fl
+		// est := helper(…); est.size — a struct result: the value stored into that field of each
+		// struct the helper returns
+		fieldOfCall := func(call *ssa.Call, field int) bool {
+			rs := helperResults(call)
+			if len(rs) == 0 {
+				return false
+			}
+			for _, r := range rs {
+				ld, ok := r.(*ssa.UnOp)
+				if !ok || ld.Op != token.MUL {
+					return false
+				}
+				al, ok := ld.X.(*ssa.Alloc)
+				if !ok || al.Referrers() == nil {
+					return false
+				}
+				found := false
+				for _, ref := range *al.Referrers() {
+					fa, ok := ref.(*ssa.FieldAddr)
+					if !ok || fa.Field != field || fa.Referrers() == nil {
+						continue
+					}
+					for _, r2 := range *fa.Referrers() {
+						if st, ok := r2.(*ssa.Store); ok && st.Addr == ssa.Value(fa) {
+							collect(st.Val, depth+1)
+							found = true
+						}
+					}
+				}
+				if !found {
+					return false
+				}
+			}
+			return true
+		}
+		if fl, ok := v.(*ssa.Field); ok {
+			if call, ok := fl.X.(*ssa.Call); ok && fieldOfCall(call, fl.Field) {
+				return
+			}
+		}
+		if ld, ok := v.(*ssa.UnOp); ok && ld.Op == token.MUL {
+			if fa, ok := ld.X.(*ssa.FieldAddr); ok {
+				if al, ok := fa.X.(*ssa.Alloc); ok && al.Referrers() != nil {
+					for _, ref := range *al.Referrers() {
+						if st, ok := ref.(*ssa.Store); ok && st.Addr == ssa.Value(al) {
+							if call, ok := st.Val.(*ssa.Call); ok && fieldOfCall(call, fa.Field) {
+								return
+							}
+						}
+					}
+				}
+			}
 		}
 		undecided = valueText(v)
 	}
